@@ -72,6 +72,15 @@ impl St<'_> {
 }
 
 fn run(case: &Case, cx: &mut Cx) -> CaseResult {
+    let t_case = std::time::Instant::now();
+    let r = run_inner(case, cx);
+    if std::env::var("VERIF_TIMING").is_ok() && t_case.elapsed().as_secs() >= 2 {
+        eprintln!("C05 slow case: {:?} ops={} first={} missing_block={:?} evals={}", t_case.elapsed(), case.hist.ops.len(), case.hist.first_band_id, case.missing_block, cx.evals);
+    }
+    r
+}
+
+fn run_inner(case: &Case, cx: &mut Cx) -> CaseResult {
     let mut w = World::for_history(&cx.scratch, &case.hist);
     std::fs::create_dir_all(cx.dir("r")).unwrap();
     for op in &case.hist.ops {
@@ -157,9 +166,15 @@ fn run(case: &Case, cx: &mut Cx) -> CaseResult {
     let mut nontrivial_inner = 0u64;
     if !case.dry_run && r.result.is_ok() {
         let only = cx.only_inner.clone();
+        // (an interrupted version above four-digit ids: stitching walks back one id at a time,
+        // ten thousand operations per restore; such archives get fewer inner values in quick)
+        // (likewise archives of hundreds of block files, which tiny block sizes produce:
+        // every inner value copies the archive and restores every kept version)
+        let costly = cx.tier == Tier::Quick
+            && ((pre.bands.keys().next().map_or(false, |m| *m >= 1000) && pre.bands.values().any(|b| !b.is_closed())) || before_raw.len() > 500);
         let mut points = scen::crash_points(&trace);
         if cx.tier == Tier::Quick {
-            points = scen::thin(&points, 40);
+            points = scen::thin(&points, if costly { 5 } else { 40 });
         }
         for (key, _torn) in points.into_iter().filter(|(_, t)| !*t) {
             let inner = json!({"crash": key});
@@ -187,12 +202,12 @@ fn run(case: &Case, cx: &mut Cx) -> CaseResult {
             .cloned()
             .collect();
         if cx.tier == Tier::Quick {
-            reads = scen::thin(&reads, 40);
+            reads = scen::thin(&reads, if costly { 5 } else { 40 });
         }
         // ... and failing removals / lock writes: a version directory that could not be
         // removed is still a version, and must keep its blocks
         let muts: Vec<_> = trace.iter().filter(|l| l.key.verb.mutating()).cloned().collect();
-        reads.extend(scen::thin(&muts, cx.tier.pick(24, 80)));
+        reads.extend(scen::thin(&muts, if costly { 4 } else { cx.tier.pick(24, 80) }));
         for l in reads {
             for kind in [EK::Other, EK::NotFound, EK::PermissionDenied] {
                 let inner = json!({"fault": l.key, "kind": kind});
@@ -305,11 +320,14 @@ fn run_with_missing_block(w: &World, requested: &[u32], frac: u16, cx: &mut Cx) 
     Ok(())
 }
 
+thread_local! { static T0: std::time::Instant = std::time::Instant::now(); }
+
 /// Scale probe: a kept version with more than 10 000 index hunks (see probes.rs).
 fn enumerate(_tier: Tier, idx: u32, of: u32, cx: &mut Cx) -> CaseResult {
     if !crate::probes::mine(idx, of) {
         return Ok(());
     }
+    T0.with(|_| ());
     let (opts, tree) = crate::probes::many_hunks_tree(10_012);
     let sub = cx.dir("many-hunks");
     std::fs::create_dir_all(sub.join("r")).unwrap();
@@ -350,6 +368,62 @@ fn enumerate(_tier: Tier, idx: u32, of: u32, cx: &mut Cx) -> CaseResult {
     check_restore(&w, cx, &Sel::Band(0), &tree, 0, "C05/probe-many-hunks/kept-version", &mut n)?;
     cx.add_evals(1);
     cx.inner_nontrivial += 1;
+    crate::engine::force_remove(&sub);
+
+    // Many versions: 72 versions that each own one block, two of them deleted; each of the
+    // 70 kept ones must keep its block and restore.
+    crate::engine::heartbeat();
+    let m = crate::probes::plain_meta();
+    let mut t = crate::tree::Tree::empty_root(crate::tree::Meta { mode: 0o755, ..m });
+    t.0.insert("/same".into(), crate::tree::Node { kind: crate::tree::Kind::File { pool: 3, len: 500 }, meta: m });
+    t.0.insert("/varies".into(), crate::tree::Node { kind: crate::tree::Kind::File { pool: 4, len: 1000 }, meta: m });
+    let sub = cx.dir("many-versions");
+    std::fs::create_dir_all(sub.join("r")).unwrap();
+    let mut cx3 = crate::engine::sub_cx(cx, sub.clone());
+    cx3.scratch = sub.clone();
+    let mut w = World::new(&sub, &t);
+    let o = ops::Opts { hunk: 100, block: 1 << 16, cap: 0 };
+    for v in 0..72u32 {
+        if v % 8 == 0 {
+            crate::engine::heartbeat();
+        }
+        if v > 0 {
+            let e = crate::history::Edit::Modify { idx: 65_000, pool: 2 + (v % 6) as u8, dlen: 1, mtime_s: m.mtime_s + v as i64, mtime_ns: 0 };
+            let _ = w.apply(&crate::history::Op::Mutate(vec![e]));
+        }
+        let s = w.apply(&crate::history::Op::Backup(o));
+        ensure!(matches!(&s, crate::history::StepKind::Backup { report, .. } if report.clean()), "C05/probe-setup", "version {v}");
+    }
+    if std::env::var("VERIF_TIMING").is_ok() {
+        eprintln!("C05 many-versions: backups done at {:?}", T0.with(|t| t.elapsed()));
+    }
+    let r = ops::delete_bands(&w.arch, &None, &[3, 10], false, false);
+    ensure!(r.clean(), "C05/probe-many-versions/delete-error", "{}", r.describe());
+    if std::env::var("VERIF_TIMING").is_ok() {
+        eprintln!("C05 many-versions: delete done at {:?}", T0.with(|t| t.elapsed()));
+    }
+    w.bands.remove(&3);
+    w.bands.remove(&10);
+    let post = format::scan(&w.arch);
+    let kept: Vec<u32> = post.bands.keys().copied().collect();
+    ensure!(kept.len() == 70, "C05/probe-many-versions/wrong-versions-removed", "{} versions remain", kept.len());
+    let referenced = post.referenced_hashes(kept.iter().copied());
+    if let Some(h) = referenced.iter().find(|h| !post.blocks.contains_key(*h)) {
+        fail!("C05/referenced-block-removed/probe-many-versions", "block {} referenced by one of 70 kept versions is gone", &h[..12]);
+    }
+    let mut n = 0;
+    for (id, tr) in w.complete_bands() {
+        if id % 8 == 0 {
+            crate::engine::heartbeat();
+        }
+        check_restore(&w, &cx3, &Sel::Band(id), tr, 0, "C05/probe-many-versions/kept-version", &mut n)?;
+    }
+    if std::env::var("VERIF_TIMING").is_ok() {
+        eprintln!("C05 many-versions: restores done at {:?}", T0.with(|t| t.elapsed()));
+    }
+    crate::engine::force_remove(&sub);
+    cx.add_evals(70);
+    cx.inner_nontrivial += 1;
     Ok(())
 }
 
@@ -357,7 +431,7 @@ pub fn prop() -> Prop<Case> {
     Prop {
         id: "C05",
         level: "fault_enumeration",
-        rule: "case = (history of <=8 ops with backups and interrupted backups, subset of the existing versions to delete incl. none and all, dry-run flag) generated by proptest. Fault-free run: on success the version set is exactly before minus S, every remaining complete version restores exactly, the independent scan finds referenced(kept) subset of present and present minus referenced(kept) empty, stats equal the directory diff; dry run or refusal leaves the directory byte-identical. Inner domain enumerated for successful real deletes: every mutating operation of the delete's logged trace as a crash point (storage frozen before it; quick thins to <=40), and every read/list/metadata operation x {other, not-found, permission-denied} as a single injected failure (quick <=40 ops): afterwards every remaining complete version must restore exactly. Non-trivial case = S non-empty and a block is shared between a deleted and a kept version, or a kept version is incomplete; non-trivial inner = any crash point, or a fault on an index file of a kept band; inner values distinct by construction. 30% of cases instead remove one block file before the delete (a damaged archive; optionally after a first garbage collection, optionally making the delete a pure gc): blocks present and referenced by kept versions must survive and kept versions must restore as just before. One fixed scale probe per run: a kept version with 10 015 index hunks beside a version that is deleted",
+        rule: "case = (history of <=8 ops with backups and interrupted backups, subset of the existing versions to delete incl. none and all, dry-run flag) generated by proptest. Fault-free run: on success the version set is exactly before minus S, every remaining complete version restores exactly, the independent scan finds referenced(kept) subset of present and present minus referenced(kept) empty, stats equal the directory diff; dry run or refusal leaves the directory byte-identical. Inner domain enumerated for successful real deletes: every mutating operation of the delete's logged trace as a crash point (storage frozen before it; quick thins to <=40), and every read/list/metadata operation x {other, not-found, permission-denied} as a single injected failure (quick <=40 ops): afterwards every remaining complete version must restore exactly. Non-trivial case = S non-empty and a block is shared between a deleted and a kept version, or a kept version is incomplete; non-trivial inner = any crash point, or a fault on an index file of a kept band; inner values distinct by construction. 30% of cases instead remove one block file before the delete (a damaged archive; optionally after a first garbage collection, optionally making the delete a pure gc): blocks present and referenced by kept versions must survive and kept versions must restore as just before. Two fixed scale probes per run: a kept version with 10 015 index hunks beside a version that is deleted; and 72 versions that each own one block, two of them deleted, the 70 kept ones restored",
         assumptions: &[
             "remove_dir_all of a band directory is one atomic transport operation in this model",
             "zero-length block files (leftovers of a killed write) are not counted as blocks",
